@@ -716,6 +716,7 @@ type c20Backend struct {
 	ch      *c20Chain
 	kase    *c20Case
 	sent    interface{} // abstract projection of what was sent
+	honest  interface{} // abstract projection of the honest answer
 	sentErr string
 	calls   int
 }
@@ -778,6 +779,7 @@ func (be *c20Backend) block(byHash bool) (*ctypes.ResultBlock, error) {
 	if err != nil {
 		return nil, err
 	}
+	be.honest = ch.absBlock(res)
 	err = ch.falsify(be.kase.Kind, a, be.kase.F, func() c20Rec { return ch.blockN(res) },
 		func(oh int64) (c20Rec, bool) {
 			o, err := ch.honestBlock(c20OtherArg(a, oh))
@@ -821,6 +823,7 @@ func (be *c20Backend) Tx(_ context.Context, _ []byte, prove bool) (*ctypes.Resul
 	if err != nil {
 		return nil, err
 	}
+	be.honest = ch.absTx(res)
 	err = ch.falsify("Tx", a, be.kase.F, func() c20Rec { return ch.txN(res) },
 		func(oh int64) (c20Rec, bool) {
 			o, err := ch.honestTx(c20OtherArg(a, oh))
@@ -853,6 +856,7 @@ func (be *c20Backend) ABCIQueryWithOptions(_ context.Context, path string, data 
 	if err != nil {
 		return nil, err
 	}
+	be.honest = ch.absQuery(&res.Response)
 	err = ch.falsify("ABCIQuery", a, be.kase.F, func() c20Rec { return ch.queryN(&res.Response) },
 		func(oh int64) (c20Rec, bool) {
 			o, err := ch.honestQuery(c20OtherArg(a, oh))
@@ -882,6 +886,7 @@ func (be *c20Backend) BlockResults(_ context.Context, height *int64) (*ctypes.Re
 	if err != nil {
 		return nil, err
 	}
+	be.honest = ch.absResults(res)
 	err = ch.falsify("BlockResults", a, be.kase.F, func() c20Rec { return ch.resultsN(res) },
 		func(oh int64) (c20Rec, bool) {
 			o, err := ch.honestResults(c20OtherArg(a, oh))
@@ -915,6 +920,7 @@ func (be *c20Backend) ConsensusParams(_ context.Context, height *int64) (*ctypes
 	if err != nil {
 		return nil, err
 	}
+	be.honest = c20AbsParamsRes(res)
 	err = ch.falsify("ConsensusParams", a, be.kase.F, func() c20Rec { return ch.paramsN(res) },
 		func(oh int64) (c20Rec, bool) {
 			o, err := ch.honestParams(c20OtherArg(a, oh))
@@ -944,6 +950,7 @@ func (be *c20Backend) BlockchainInfo(_ context.Context, lo, hi int64) (*ctypes.R
 	if err != nil {
 		return nil, err
 	}
+	be.honest = ch.absInfo(res)
 	err = ch.falsify("BlockchainInfo", a, be.kase.F, func() c20Rec { return ch.infoN(res) },
 		func(oh int64) (c20Rec, bool) {
 			o, err := ch.honestInfo(c20OtherArg(a, oh))
